@@ -215,9 +215,13 @@ class LinkRig:
         self._ncp_event(self.ncp.timer(), {"a": "ntick"})
         return True
 
+    MAX_HARMS = 3      # C01's line drops, corrupts, duplicates and stalls frames; a transport whose write() raises is a transient extra, kept
+    harms = 0          # well below the 7 spent frame numbers after which a NAK for an out-of-sequence frame reads as its acknowledgement (DESIGN 6)
+
     def harm(self):
-        if self.host.write_fail_next:
+        if self.host.write_fail_next or self.harms >= self.MAX_HARMS:
             return False
+        self.harms += 1
         self.host.write_fail_next = True
         self.trace.append({"a": "harm", "out": [], "t": self.loop.ms})
         return True
